@@ -34,6 +34,9 @@ type Gen struct {
 	peerNom  uint32
 	nAdv     int
 	OffFamily int
+	script   []step
+	oldReq   []outstanding // requests of the generation ended by the last Restart
+	Scenario string
 }
 
 type outstanding struct {
@@ -50,6 +53,7 @@ var localPool = []Cand{
 	{Typ: 1, Net: 2, Addr: V6(1, 5003), Comp: 1},
 	{Typ: 4, Net: 1, Addr: V4(198, 51, 100, 9, 5004), Comp: 1, HasRel: true, RelIP: big.NewInt(0x0a000001), RelPort: 5000},
 	{Typ: 1, Net: 1, Addr: V4(10, 0, 0, 1, 5000), Comp: 1}, // duplicate of the first
+	{Typ: 1, Net: 3, Addr: V4(10, 0, 0, 1, 5005), Comp: 1, TCP: 2}, // tcp passive
 }
 
 var remotePool = []Cand{
@@ -248,6 +252,13 @@ func (g *Gen) remove(tx int) {
 
 // Next draws the next operation.
 func (g *Gen) Next() (Op, string) {
+	for len(g.script) > 0 && !g.Closed {
+		st := g.script[0]
+		g.script = g.script[1:]
+		if op, tag, ok := st(g); ok {
+			return op, tag
+		}
+	}
 	r := g.pick(100)
 	switch {
 	case g.Closed:
@@ -531,6 +542,10 @@ func (g *Gen) otherStun() (Op, string) {
 	g.nextPeerTx++
 	switch g.pick(3) {
 	case 0:
+		if g.pick(3) == 0 {
+			g.Mutated++
+			return Op{Kind: "IS", LH: l.H, Src: src, Msg: Msg{Class: 1, Method: []int{3, 6, 7}[g.pick(3)], Tx: g.nextPeerTx}}, "non_binding_indication"
+		}
 		return Op{Kind: "IS", LH: l.H, Src: src, Msg: Msg{Class: 1, Method: 1, Tx: g.nextPeerTx}}, "indication"
 	case 1:
 		m := g.peerRequest()
